@@ -25,6 +25,10 @@ CLAIMED['C19'] = dict(
    text='Seeded exploration of interleaved evaluation histories (value, pointwise values, value with sensitivities, simulate, seeded sampling, initial points) on 2-6 objects derived from shared user models (error/mechanistic/population models and their reduced wrappers, LogLikelihood, LogPosterior, HierarchicalLogLikelihood/Posterior, PopulationFilterLogPosterior, PredictiveModel, PopulationPredictiveModel), with caller-side changes of the user models after hand-over, read-only / list / strided-view arguments, injected solver failures, perturbation of the global generators, and batches through the real pints.ParallelEvaluator running on a simulated machine (baton-passing processes, fork emulated by deep copy, seeded scheduler, 1-4 workers, worker recycling, persistent workers over two batches, parent-side evaluations between batches, starvation) against pints.SequentialEvaluator. Every result must equal the same query on a fresh, never-touched replica built per distinct query; arguments must be unchanged. Sampling, not proof.',
    ref='DESIGN.md section 5 (C19)',
    note='Trusted: solver stand-in; process emulation (dst/mp_stub.py): fork = deep copy + private global-generator state, an evaluation inside a worker is atomic (forked processes share no memory). Pre-emption inside a chi call by another thread is not modelled (no property claims thread safety). Population models are not mutated behind a likelihood (not promised by the property).')
+CLAIMED['C03'] = dict(
+   text='Scoped. Seeded exploration of histories under the four log-pdf classes and PopulationFilterLogPosterior: the user mechanistic model first goes through a random valid configuration history (routes incl. indirect->direct, regimens, renames, output changes, sensitivity switches, copies), then value / value-with-sensitivities checks in both orders are interleaved with fix / release on the likelihood, regimen changes through get_submodels and solver failures (exception or non-finite output) injected at the same logical evaluation of both paths. Decided: the score returned with the sensitivities equals the plain score; finite <=> finite; gradient length = n_parameters. The k-th-partial-derivative clause is only input-sampled at the visited points by Richardson central differences with an error-aware margin (sign / index / missing-factor slips give O(1) discrepancies; a subtle 1e-6 error would pass). Sampling, not proof.',
+   ref='DESIGN.md section 5 (C03)',
+   note='Trusted: solver stand-in (exact LTI engine with own scaling-and-squaring expm; adaptive LSODA engine with looser tolerances). Points are kept of order one and evaluations whose model outputs sit at the round-off / tolerance level of the solver are skipped, because two solver objects legitimately disagree there. Compositions listed as open C17 findings (covariate model over pooled / heterogeneous) are not generated here.')
 NA = {
  'C01': 'pure function of grids, observations and parameters: no history, schedule, fault or process in the statement; deciding it needs input generation against a reference likelihood (property-based testing), a different technique',
  'C02': 'pure function of composition, data and parameter vector; nothing for a simulator to control',
